@@ -469,6 +469,38 @@ def _try_inline(st: ast.stmt, cands, caller, ccls, caller_locals) -> tuple[str, 
     return name, out
 
 
+# ------------------------------------------------------------------------------------------------ N5
+class _IfExpStmts(ast.NodeTransformer):
+    """`x = a if c else b` -> `if c: x = a else: x = b`; `return a if c else b` -> `if c: return a else: return b` (same evaluation order)."""
+
+    def _split(self, st: ast.stmt, value: ast.expr, mk) -> ast.stmt:
+        if isinstance(value, ast.IfExp):
+            node = ast.If(test=value.test, body=[self._split(st, value.body, mk)], orelse=[self._split(st, value.orelse, mk)])
+            return ast.copy_location(node, st)
+        return ast.copy_location(mk(value), st)
+
+    def visit_Assign(self, node: ast.Assign) -> ast.AST:
+        if isinstance(node.value, ast.IfExp) and len(node.targets) == 1 and isinstance(node.targets[0], (ast.Name, ast.Attribute)) \
+                and not (isinstance(node.targets[0], ast.Attribute) and not _pure(node.targets[0].value)):
+            return self._split(node, node.value, lambda v: ast.Assign(targets=[copy.deepcopy(node.targets[0])], value=v))
+        return node
+
+    def visit_Return(self, node: ast.Return) -> ast.AST:
+        if isinstance(node.value, ast.IfExp):
+            return self._split(node, node.value, lambda v: ast.Return(value=v))
+        return node
+
+    def visit_ClassDef(self, node: ast.ClassDef) -> ast.AST:
+        # class bodies (field defaults) stay as written; methods are visited
+        for i, st in enumerate(node.body):
+            if isinstance(st, (ast.FunctionDef, ast.AsyncFunctionDef, ast.ClassDef)):
+                node.body[i] = self.visit(st)
+        return node
+
+    def visit_Lambda(self, node: ast.Lambda) -> ast.AST:
+        return node
+
+
 # ------------------------------------------------------------------------------------------------ entry
 def normalise(trees: dict[str, ast.Module]) -> None:
     known = known_names()
@@ -476,4 +508,6 @@ def normalise(trees: dict[str, ast.Module]) -> None:
     for t in trees.values():
         _inline_constants(t, known)
         _Exprs().visit(t)
+        for fn in [n for n in ast.walk(t) if isinstance(n, (ast.FunctionDef, ast.AsyncFunctionDef))]:
+            fn.body = [_IfExpStmts().visit(st) for st in fn.body]
         ast.fix_missing_locations(t)
